@@ -391,28 +391,36 @@ fn completions_for_type(genv: &GlobalTypeEnv, ty: &tast::Ty) -> Vec<DotCompletio
         .inherent_impls
         .get(&crate::env::InherentImplKey::Exact(ty.clone()))
     {
-        methods.extend(impl_def.methods.iter().map(|(method_name, method_scheme)| {
-            DotCompletionItem {
-                name: method_name.clone(),
-                kind: DotCompletionKind::Method,
-                detail: Some(method_scheme.ty.to_pretty(80)),
-            }
-        }));
+        methods.extend(
+            impl_def
+                .methods
+                .iter()
+                .filter(|(_, method_scheme)| takes_receiver(&method_scheme.ty, ty))
+                .map(|(method_name, method_scheme)| DotCompletionItem {
+                    name: method_name.clone(),
+                    kind: DotCompletionKind::Method,
+                    detail: Some(method_scheme.ty.to_pretty(80)),
+                }),
+        );
     }
-    if let tast::Ty::TApp { ty, .. } = ty {
-        let base_name = ty.get_constr_name_unsafe();
+    if let tast::Ty::TApp { ty: base_ty, .. } = ty {
+        let base_name = base_ty.get_constr_name_unsafe();
         if let Some(impl_def) = genv
             .trait_env
             .inherent_impls
             .get(&crate::env::InherentImplKey::Constr(base_name))
         {
-            methods.extend(impl_def.methods.iter().map(|(method_name, method_scheme)| {
-                DotCompletionItem {
-                    name: method_name.clone(),
-                    kind: DotCompletionKind::Method,
-                    detail: Some(method_scheme.ty.to_pretty(80)),
-                }
-            }));
+            methods.extend(
+                impl_def
+                    .methods
+                    .iter()
+                    .filter(|(_, method_scheme)| takes_receiver(&method_scheme.ty, ty))
+                    .map(|(method_name, method_scheme)| DotCompletionItem {
+                        name: method_name.clone(),
+                        kind: DotCompletionKind::Method,
+                        detail: Some(method_scheme.ty.to_pretty(80)),
+                    }),
+            );
         }
     }
     methods.sort_by(|a, b| a.name.cmp(&b.name));
@@ -495,6 +503,24 @@ pub fn colon_colon_completions(
     items.sort_by(|a, b| a.name.cmp(&b.name));
     items.retain(|item| item.name.starts_with(&prefix));
     Some(items)
+}
+
+/// `x.m(..)` passes x as the first argument: only methods whose first parameter is the
+/// receiver's type (or an instance of its generic type) can follow the dot.
+fn takes_receiver(method_ty: &tast::Ty, receiver_ty: &tast::Ty) -> bool {
+    let tast::Ty::TFunc { params, .. } = method_ty else {
+        return false;
+    };
+    let Some(first) = params.first() else {
+        return false;
+    };
+    if first == receiver_ty {
+        return true;
+    }
+    match (type_constructor_name(first), type_constructor_name(receiver_ty)) {
+        (Some(a), Some(b)) => a == b,
+        _ => false,
+    }
 }
 
 fn type_constructor_name(ty: &tast::Ty) -> Option<&str> {
